@@ -183,7 +183,7 @@ func ruleNestedCollectorFold(r *Report, rule string) {
 			}
 		}
 		for _, c := range callsIn(fi.Decl.Body) {
-			if id, ok := ast.Unparen(c.Fun).(*ast.Ident); ok && id.Name == "dmHandler" && len(c.Args) == 1 && objOf(info, c.Args[0]) == rootObj && rootObj != nil {
+			if id, ok := ast.Unparen(c.Fun).(*ast.Ident); ok && isMatchHandlerVar(info, id) && len(c.Args) == 1 && objOf(info, c.Args[0]) == rootObj && rootObj != nil {
 				handled = true
 			}
 		}
